@@ -171,6 +171,11 @@ def check_decode(bp, b: bytes):
                 raw = b[:pos]
             elif fn == "decode_varint_reused_buffer":
                 # one mutable buffer refilled in place for every input (what a receive loop does): same contract
+                _REUSED[:] = b"\xac\x02" if b[:2] != b"\xac\x02" else b"\x05"
+                try:
+                    bp.decode_varint(_REUSED, 0)  # the previous content of the very same buffer object
+                except Exception:  # noqa: BLE001
+                    pass
                 _REUSED[:] = b
                 v, pos = bp.decode_varint(_REUSED, 0)
                 raw = bytes(_REUSED[:pos])
